@@ -7,6 +7,7 @@ package absnfs
 import (
 	"encoding/json"
 	"fmt"
+	"os"
 	"sort"
 	"strings"
 	"time"
@@ -182,6 +183,20 @@ func vSchedRunPlans(c *vCtx, prop string, scns []vScn, quick, thorough []vPlan) 
 	if c.thorough() {
 		plans = thorough
 		budget = 40 * time.Minute
+	}
+	if f := os.Getenv("VERIF_SCN"); f != "" { // debugging aid: restrict to scenarios whose name contains f
+		var keep []vScn
+		for _, scn := range scns {
+			if strings.Contains(scn.name, f) {
+				keep = append(keep, scn)
+			}
+		}
+		scns = keep
+		c.res.Exhaustive = false
+		c.note("VERIF_SCN=%s: only %d scenarios explored", f, len(scns))
+		if len(scns) == 0 {
+			return
+		}
 	}
 	// the budget is shared: what one scenario does not use rolls over to the next ones
 	end := time.Now().Add(budget)
